@@ -1,6 +1,7 @@
 package drv
 
 import (
+	"encoding/base64"
 	"encoding/json"
 	"sync"
 	"fmt"
@@ -326,6 +327,13 @@ func (i *Inst) runConnect(s *OiScript, tw *TraceWriter, rng *rand.Rand, store, u
 	case "unauth":
 		if _, err := b.Get(i.BaseURL() + "/connect"); err != nil {
 			return err
+		}
+	case "othermech":
+		// the browser has authenticated at the GATEWAY endpoint with another enabled mechanism (basic credentials the
+		// backend confirms) and keeps whatever cookie came back: that is not an OpenID login
+		if i.Users["7"] != "" {
+			b.GetWith(i.BaseURL()+"/remoteDesktopGateway/", [][2]string{{"Authorization", "Basic " + base64.StdEncoding.EncodeToString([]byte("7:"+i.Users["7"]))}})
+			b.GetWith(i.BaseURL()+"/remoteDesktopGateway/", [][2]string{{"Authorization", "Basic " + base64.StdEncoding.EncodeToString([]byte("7:"+i.Users["7"]))}})
 		}
 	case "authed":
 		l := loginFor("ok", user)
